@@ -2,6 +2,8 @@ package checks
 
 import (
 	"fmt"
+	"os"
+	"path/filepath"
 	"strings"
 	"testing"
 	"time"
@@ -58,6 +60,14 @@ func TestC07(t *testing.T) {
 	Main(t, "C07", func(c *Ctx) {
 		c.OnReplay("crash", func(s *Sub, rp *Replay) { c.c07Program(s, "replay", rp.Source, rp.Stdin, true, false) })
 		c.OnReplay("cli", func(s *Sub, rp *Replay) { c.c07CLI(s, rp.Source, rp.Note) })
+		c.OnReplay("rawstdin", func(s *Sub, rp *Replay) {
+			p := filepath.Join(c.CLIDir(), "raw.bn")
+			os.WriteFile(p, []byte(rp.Source), 0o644)
+			cr := run.CLI(c.Bin, []string{p}, rp.Stdin, c.CLIDir(), 30*time.Second)
+			if cr.TimedOut || (cr.Status != 0 && cr.Status != 70) || strings.Contains(cr.Stderr, "panic:") || strings.Contains(cr.Stderr, "fatal error") {
+				s.Violation(Replay{Check: "rawstdin", Sig: "cli-abnormal-raw-stdin", Source: rp.Source, Stdin: rp.Stdin, Note: rp.Note, Observed: fmt.Sprintf("status=%d stderr=%q", cr.Status, clip(cr.Stderr, 400))})
+			}
+		})
 		c.ReplayTier()
 		P := bn.KwPrint
 
@@ -169,6 +179,33 @@ func TestC07(t *testing.T) {
 				}
 			}
 			c.Ev.MarkExhaustive(fmt.Sprintf("every code point of the Bangla block and %d other digit-like characters as a one- or two-character string x %d coercing forms", 19, len(forms)))
+		})
+		c.Sub("raw-stdin-bytes", func(s *Sub) {
+			// ইনপুট returns whatever bytes arrive on stdin, also bytes that are not valid UTF-8; only the real CLI can be fed
+			// such bytes (the batch protocol is JSON).  Each value is pushed through every coercing context.
+			var k int64
+			inputs := []string{"\xe0", "\xe0\xa7", "12\xe0", "১২\xe0\xa7", "\xe0\xa7\xa7\xe0", "\x80", "\xbf\xbf", "\xc0\x80", "\xff", "\xfe\xff", "\xf0\x9f", "\xf0\x9f\x98", "\xed\xa0\x80", "\xf4\x90\x80\x80",
+				"a\x00b", "\x00", "5\x00", "\xe0\xa7\xa6", "\xe0\xa7\xb4", "1\xe0\xa7\xa7\xe0\xa7", "3.\xe0", "-\xe0\xa7", "\xc2", "\xe2\x82", "0x1\xff", "1e\xe0"}
+			forms := []string{"v - 1", "v * 2", "v < 1", "v | 1", "~v", "-v", "1 << v", "arr[v]", bn.BRemove + "(arr, v)", bn.BAbs + "(v)", bn.BMin + "(1, v)", bn.BPow + "(v, 2)", "v + 1", "v == v", "[v]", "{k: v}", bn.BLen + "(v)", "\"<\" + v + \">\"", "obj[v]", bn.BDelKey + "(obj, v)"}
+			for _, in := range inputs {
+				for _, f := range forms {
+					k++
+					if !c.Mine(k) {
+						continue
+					}
+					src := c07Prelude + bn.KwVar + " v = " + bn.BInput + "();\n" + P + " \"read\";\n" + P + " " + f + ";\n" + P + " \"end\";\n"
+					p := filepath.Join(c.CLIDir(), "raw.bn")
+					os.WriteFile(p, []byte(src), 0o644)
+					cr := run.CLI(c.Bin, []string{p}, in+"\n", c.CLIDir(), 30*time.Second)
+					c.Ev.CLICross++
+					c.Ev.EnumCase("raw-stdin-bytes", true, func() string { return fmt.Sprintf("stdin=%q %s", in, f) }, "cli-raw-stdin")
+					if cr.TimedOut || (cr.Status != 0 && cr.Status != 70) || strings.Contains(cr.Stderr, "goroutine ") || strings.Contains(cr.Stderr, "panic:") || strings.Contains(cr.Stderr, "fatal error") {
+						s.Violation(Replay{Check: "rawstdin", Sig: "cli-abnormal-raw-stdin", Source: src, Stdin: in + "\n", Note: fmt.Sprintf("stdin bytes %q used as %s", in, f), Expected: "exit status 0 or 70 without a host-runtime banner",
+							Observed: fmt.Sprintf("status=%d timedOut=%v stderr=%q", cr.Status, cr.TimedOut, clip(cr.Stderr, 400))})
+					}
+				}
+			}
+			c.Ev.MarkExhaustive(fmt.Sprintf("%d stdin byte strings that are not valid UTF-8 (truncated, lone continuation, overlong, surrogate, out of range, NUL) x %d uses of the value read", len(inputs), len(forms)))
 		})
 		c.Sub("deep-nesting", func(s *Sub) {
 			if c.Shard != 0 {
